@@ -201,7 +201,7 @@ def rearm1(ctx: Ctx, chk) -> None:
                 g_ = CFG(f.node)
                 cn = Canon(I, f)
                 rem = [x for node, key_ in sb.removal_sites(ctx, f, "internal_messages") if key_ is not None and not isinstance(key_, sb.HelperKey) and cn.canon(key_) == f"(In.node_id, In.child_id, {pv})" for x in g_.nodes_where(lambda y, node=node: y.contains(node))]
-                wrapped_params = set(f.parent.params) if f.parent is not None else set()
+                wrapped_params = ctx.I.wrapped_param_names(f)
                 deleg = []
                 for c_ in ctx.own_nodes(f):
                     if isinstance(c_, ast.Call) and ((isinstance(c_.func, ast.Attribute) and isinstance(c_.func.value, ast.Call) and norm(c_.func.value.func) == "super") or (isinstance(c_.func, ast.Name) and c_.func.id in wrapped_params)):
